@@ -19,6 +19,8 @@ FIRST_ARGS = [  # (source, is plain str literal, executable literal or None, com
     ("'./run.sh'", True, "./run.sh", "./run.sh"), ("'C:\\\\tool.exe'", True, "C:\\tool.exe", None), ("'tar cf a.tar *'", True, "tar cf a.tar *", "tar cf a.tar *"),
     ("['chown', 'root', '*']", False, "chown", " chown root *"), ("'/bin/chmod 777 *.py'", True, "/bin/chmod 777 *.py", "/bin/chmod 777 *.py"),
     ("[]", False, None, ""), ("[cmd, '*']", False, None, None),
+    # an unpacked sequence as the first positional argument is an argument (seeded change C14-m12 cut call_args at the first starred entry)
+    ("*cmd", False, None, None), ("*['ls', '-l']", False, None, None), ("*cmd, 'r'", False, None, None),
     # the risky program need not be the first word of a command line given to a shell (seeded change C14-m10 looked at the first word only)
     ("'cd /srv/www && tar czf /tmp/site.tgz *'", True, "cd /srv/www && tar czf /tmp/site.tgz *", "cd /srv/www && tar czf /tmp/site.tgz *"),
     ("'sudo chown www-data: *'", True, "sudo chown www-data: *", "sudo chown www-data: *"),
@@ -179,4 +181,4 @@ def _run_main(res, ctx):
 def run(res, ctx):
     _run_main(res, ctx)
     # the neighbourhood of every construct of bandit's example files (harness/metamorph.py): model vs implementation on this family's ids
-    metamorph.family(res, ctx, C, {"B602", "B603", "B604", "B605", "B606", "B607", "B609"}, 600, 3000)
+    metamorph.family(res, ctx, C, {"B602", "B603", "B604", "B605", "B606", "B607", "B609"}, 600, 3000, sections={"shell_injection"}, cfg_want=lambda s: "subprocess" in s or "os." in s or "shell" in s)
